@@ -102,7 +102,8 @@ def _task_alarm(signum, frame):
 
 
 def run_task(args):
-    pid, clause_index, shard, nshards, tier, seed, examples = args
+    pid, clause_index, shard, nshards, tier, seed, examples = args[:7]
+    engine = args[7] if len(args) > 7 else None
     mod = load_property(pid)
     clause = mod.CLAUSES[clause_index]
     clause.property_id = pid
@@ -115,8 +116,22 @@ def run_task(args):
         signal.alarm(limit)
     except ValueError:
         pass
+    # an address-space cap per task: code under test that starts to allocate
+    # without bound ends in MemoryError (no verdict: harness error) instead
+    # of taking the machine down
     try:
-        if clause.fuzz is not None:
+        import resource
+        cap = int(os.environ.get("VERIF_TASK_MEM_MB", "6144")) << 20
+        soft, hard = resource.getrlimit(resource.RLIMIT_AS)
+        if engine != "cov" and clause.fuzz is None and \
+                (hard == resource.RLIM_INFINITY or cap <= hard):
+            resource.setrlimit(resource.RLIMIT_AS, (cap, hard))
+    except (ImportError, ValueError, OSError):
+        pass
+    try:
+        if engine == "cov":
+            _run_cov(pid, clause, col, tier, shard, seed, examples)
+        elif clause.fuzz is not None:
             _run_fuzz(pid, clause, col, tier, shard, seed)
         elif clause.enumerate is not None:
             _run_enumeration(clause, col, tier, shard, nshards)
@@ -196,6 +211,92 @@ def _run_fuzz(pid, clause, col, tier, shard, seed):
                 col.failure = (case, v.message, v.details)
                 return
             col.classes["fuzz-crash-not-reproduced"] += 1
+    finally:
+        shutil.rmtree(tmp, ignore_errors=True)
+
+
+COV_RUNS = {"quick": 0, "thorough": 30000}
+
+
+def cov_runs(clause, tier, examples=None):
+    """libFuzzer executions of one coverage-guided shard of a clause."""
+    if examples:
+        return examples
+    if isinstance(clause.cov, dict):
+        return clause.cov.get(tier, 0)
+    n = int(os.environ.get("VERIF_COV_RUNS", "0")) or COV_RUNS[tier]
+    return min(n, 4 * clause.examples.get(tier, 0))
+
+
+def _run_cov(pid, clause, col, tier, shard, seed, examples):
+    """Coverage-guided campaign over the clause's own strategy
+    (vf/covfuzz.py) in a child process; a reported case is replayed through
+    check() here before it counts."""
+    import shutil
+    import subprocess
+    import tempfile
+    runs = cov_runs(clause, tier, examples)
+    if not runs:
+        return
+    env = dict(os.environ)
+    env["PYTHONPATH"] = os.pathsep.join(
+        [os.environ.get("RIG_REPO", "/repo"), HERE,
+         os.path.join(HERE, ".deps")])
+    probe = subprocess.run([sys.executable, "-c", "import atheris"], env=env,
+                           capture_output=True)
+    if probe.returncode != 0:
+        subprocess.run([os.path.join(HERE, "setup.sh")], capture_output=True)
+        probe = subprocess.run([sys.executable, "-c", "import atheris"],
+                               env=env, capture_output=True)
+    if probe.returncode != 0:
+        col.classes["atheris-unavailable"] += 1
+        return
+    tmp = tempfile.mkdtemp(prefix="vf-cov-")
+    try:
+        corpus = os.path.join(tmp, "corpus")
+        os.makedirs(corpus)
+        cmd = [sys.executable, "-m", "vf.covfuzz", pid, clause.name, tier,
+               tmp, "-runs=%d" % runs,
+               "-seed=%d" % (_seed_for(pid, clause.name + "/cov", shard, seed)
+                             % (2 ** 31 - 1) + 1),
+               "-max_len=8192", "-len_control=0", "-rss_limit_mb=8000",
+               "-timeout=600",
+               "-artifact_prefix=" + os.path.join(tmp, "crash-"), corpus]
+        limit = int(os.environ.get("VERIF_COV_TIMEOUT",
+                                   "600" if tier == "quick" else "10000"))
+        try:
+            subprocess.run(cmd, env=env, cwd=HERE, capture_output=True,
+                           timeout=limit)
+        except subprocess.TimeoutExpired:
+            col.classes["cov-campaign-stopped-at-time-limit"] += 1
+        stats = os.path.join(tmp, "stats.json")
+        if os.path.exists(stats):
+            with open(stats) as f:
+                st = json.load(f)
+            col.evaluations += st["cases"]
+            col.classes["cov-executions"] += st["executions"]
+            col.classes["cov-cases"] += st["cases"]
+            col.classes["cov-nontrivial-cases"] += st["nontrivial"]
+            for k, v in st.get("classes", {}).items():
+                col.classes[k] += v
+            for case in st.get("samples", []):
+                col.samples.append((len(canonical(case)), case))
+            for i in range(st["nontrivial"]):
+                col.nontrivial.add("cov%d/%d" % (shard, i))
+        else:
+            col.classes["cov-campaign-without-statistics"] += 1
+        vpath = os.path.join(tmp, "violation.json")
+        if os.path.exists(vpath):
+            with open(vpath) as f:
+                doc = json.load(f)
+            case = doc["case"]
+            try:
+                clause.run(case)
+            except Violation as v:
+                col.failure = (case, v.message, v.details)
+                col.shrink_truncated = True
+                return
+            col.classes["cov-report-not-reproduced"] += 1
     finally:
         shutil.rmtree(tmp, ignore_errors=True)
 
@@ -340,6 +441,11 @@ def main(argv=None):
     ap.add_argument("--shards", type=int)
     ap.add_argument("--jobs", type=int, default=int(
         os.environ.get("VERIF_JOBS", "16")))
+    ap.add_argument("--engine", choices=["cov", "both"], default=None,
+                    help="cov: only the coverage-guided campaigns "
+                         "(vf/covfuzz.py); both: them and the Hypothesis "
+                         "shards; default: Hypothesis in the quick tier, "
+                         "both in the thorough tier")
     ap.add_argument("--no-evidence", action="store_true")
     ap.add_argument("--no-regressions", action="store_true",
                     help="sensitivity testing: skip the saved regression "
@@ -443,8 +549,19 @@ def run_checks(mod, pid, args, seed, t0):
         if c.fuzz is None and c.examples.get(tier, 1) == 0:
             continue
         nshards = args.shards or c.shards[tier]
-        for s in range(nshards):
-            tasks.append((pid, i, s, nshards, tier, seed, args.examples))
+        if args.engine != "cov":
+            for s in range(nshards):
+                tasks.append((pid, i, s, nshards, tier, seed, args.examples))
+        if args.engine in ("cov", "both") or \
+                (args.engine is None and tier == "thorough"):
+            if c.strategy is not None and c.fuzz is None and \
+                    c.enumerate is None and not c.isolate and \
+                    c.cov is not False and cov_runs(c, tier, args.examples):
+                ncov = args.shards or (c.cov or {}).get("shards", 2) \
+                    if isinstance(c.cov, dict) else (args.shards or 2)
+                for s in range(ncov):
+                    tasks.append((pid, i, s, ncov, tier, seed, args.examples,
+                                  "cov"))
     results = []
     if violations:
         tasks = []
@@ -522,7 +639,9 @@ def run_checks(mod, pid, args, seed, t0):
             "excluded": pc["excluded"],
             "shards": pc["shards"],
             "engine": "atheris" if c.fuzz else
-            ("enumeration" if c.enumerate else "hypothesis"),
+            ("enumeration" if c.enumerate else
+             ("hypothesis + atheris over the same strategy"
+              if pc["classes"].get("cov-executions") else "hypothesis")),
             "exhaustive": bool(c.exhaustive and c.enumerate),
         }
     rule = getattr(mod, "RULE", None) or "; ".join(
